@@ -368,6 +368,41 @@ def run_entry(root, v, mode, sp):
         os.chdir(old)
 
 
+def two_directories(root, v, sp):
+    """-> None, or what went wrong."""
+    import ZConfig
+    import ZConfig.loader
+    arg = "/".join(sp.get(x, x) for x in v["arg"])
+    cwd1 = os.path.join(root, *[sp[x] for x in v["cwd"]])
+    ld = ZConfig.loader.SchemaLoader()
+    old = os.getcwd()
+    try:
+        os.chdir(cwd1)
+        try:
+            first = sorted(k for k, _ in ld.loadURL(arg) if k)
+        except Exception as e:
+            return {"first": "raised %s" % type(e).__name__}
+        for d in TREE_DIRS + [("O",)]:
+            cwd2 = os.path.join(root, *[sp[x] for x in d])
+            if os.path.realpath(cwd2) == os.path.realpath(cwd1) or os.path.realpath(cwd2) != os.path.abspath(cwd2):
+                continue        # (a symbolic link is never used as working directory: os.getcwd() is physical)
+            target = os.path.normpath(os.path.join(cwd2, arg))
+            if not os.path.isfile(target) or os.path.realpath(target) == os.path.realpath(os.path.join(cwd1, arg)):
+                continue
+            os.chdir(cwd2)
+            try:
+                second = sorted(k for k, _ in ld.loadURL(arg) if k)
+            except Exception as e:
+                return {"second": "raised %s" % type(e).__name__, "cwd2": d}
+            fresh = sorted(k for k, _ in ZConfig.loadSchema(arg) if k)
+            if second != fresh:
+                return {"first": first, "second": second, "fresh_loader_there": fresh, "cwd2": list(d)}
+            return None
+    finally:
+        os.chdir(old)
+    return None
+
+
 def expected(v, mode):
     if v["out"] == "refused":
         return {"r": "refused"}
@@ -399,6 +434,20 @@ def replay_b(v):
             shutil.rmtree(root, ignore_errors=True)
         want = expected(v, mode)
         ok = got["r"] == want["r"] and (got["r"] != "ok" or got["markers"] == want["markers"])
+        if ok and mode == "schema" and v["kind"] == "rel" and got["r"] == "ok":
+            # one SchemaLoader, the same relative name from two working directories: the second load must give
+            # what the name means THERE (a decoy of the same name, if one is reached)
+            shutil.rmtree(root, ignore_errors=True)
+            os.makedirs(root)
+            try:
+                materialise(root, v, mode, sp, links)
+                two = two_directories(root, v, sp)
+            finally:
+                shutil.rmtree(root, ignore_errors=True)
+            if two is not None:
+                return {"clause": "schema: one loader, same relative name, two working directories",
+                        "input": {"scenario": v, "spelling": sp, "mode": mode}, "observed": two,
+                        "class": {"clause": "schema: reused loader", "kind": v["kind"]}}
         if not ok:
             why = "%s: %s" % (mode, "internal-error" if got["r"] == "raised" else
                               "refusal" if got["r"] != want["r"] else "wrong resource reached")
